@@ -12,6 +12,8 @@ Ops (one case = one run of the state machine `Sentinel.System.step`):
 * `entry <id> <res> in|out|default <batch|->`  => `pass` | `block sys`   (`default`: no WithTrafficType option = outbound; `-`: no WithBatchCount option = 1)
 * `exit <id> [err]`                         `Exit()` / `Exit(WithError(…))`
 * `sys mem <int>`                            `SetSystemMemoryUsage` (not an input of any system rule)
+* `many <n>`                                 n fresh resource names entered (default type) and exited at once
+* `config <sampleCount> <intervalMs>`        the configured metric statistic shape is changed (valid shapes only)
 * `rules`  => `system.GetRules()` sorted; a `nil` token in `load` is a nil pointer in the slice
 * `remod <i> <metric>/<strategy>/<f:bits>`    element `i` of the slice loaded last is changed in place and the same slice is loaded again
 * `stat`  => the inbound aggregates the slot reads
@@ -62,6 +64,9 @@ def parseOp? : List String → Option (Op Float)
   | ["exit", id] => some (.exit id)
   | ["exit", id, "err"] => some (.exitErr id)
   | ["sys", "mem", x] => x.toInt?.map .sysMem
+  | ["config", sc, iv] => match sc.toNat?, iv.toNat? with
+      | some sc, some iv => if Sentinel.LA.validView sc iv gN (gN * gL) == 0 then some (.config sc iv) else none
+      | _, _ => none
   | _ => none
 
 def showRes : Res → Option String
@@ -88,6 +93,17 @@ def stepLine (spec : Bool) (d : DSt) (ts : List String) (_ : String) : DSt × Op
   let s := d.s
   match ts with
   | ["stat"] => if s.started then (d, some (statLine spec s)) else (d, some "bad-op")
+  | ["many", n] =>
+    -- `n` fresh resource names, each entered (default traffic type = outbound) and exited at once: run as `n`
+    -- entry/exit pairs of the model (theorem `outbound_roundtrip`: each pair leaves the state unchanged)
+    match n.toNat? with
+    | none => (d, some "bad-op")
+    | some n =>
+      if !s.started then (d, some "bad-op") else
+      let s' := (List.range n).foldl (fun st k =>
+        let id := "many-" ++ toString k
+        (step fA spec (step fA spec st (.entry id false 1)).1 (.exit id)).1) s
+      ({ d with s := s' }, none)
   | ["rules"] =>
     -- `system.GetRules()`: the rules in force, as a sorted multiset
     let show1 (r : Rule Float) : String := s!"{r.metric}/{r.strategy}/{fbits r.trigger}"
